@@ -39,7 +39,7 @@ public:
 
 static char fname[64];
 
-uint64_t vf_cases(void) { return vf_thorough ? 600000 : 60000; }
+uint64_t vf_cases(void) { return vf_thorough ? 500000 : 40000; }
 
 void vf_case(uint64_t idx, vf_rng *r)
 {
